@@ -260,15 +260,16 @@ SOLVERS = [('z3-new', ['z3-new', '-in', '-T:{t}']), ('z3', ['z3', '-in', '-T:{t}
 class VC:
     """one SMT verification condition: `smt` is a complete script whose (check-sat) must answer unsat"""
 
-    def __init__(self, name, smt, about='', source=None, solvers=None, timeout=20, expect='unsat', model_vars=()):
+    def __init__(self, name, smt, about='', source=None, solvers=None, timeout=20, expect='unsat', model_vars=(), group=None):
         self.name, self.smt, self.about, self.source = name, smt, about, source
+        self.group = group or name.split('/')[0]
         self.solvers = solvers
         self.timeout = timeout
         self.expect = expect
         self.model_vars = model_vars
 
     def verify(self, cross=False):
-        ob = {'id': self.name, 'description': self.about, 'target': self.name, 'status': 'UNKNOWN', 'backend': None,
+        ob = {'id': self.name, 'description': self.about, 'target': self.group, 'status': 'UNKNOWN', 'backend': None,
               'location': self.source or {}}
         secs = {}
         answers = {}
